@@ -442,9 +442,27 @@ func genClientShutdown(rnd *tr.Rand, w *tr.Writer, id string) {
 		r.rnd = rnd
 		r.do("boot", rnd.PickS([]string{"none", "none", "shutdown"}))
 		for i := rnd.Intn(4); i > 0; i-- {
-			r.do("call", "0", "dial", "0", "none", "0", "none")
+			// (a Shutdown answered by a client's handler makes that one loop leave while the client goes on: a later
+			// Dial that the load balancer gives to the dead loop never returns -- the stranding of the recorded
+			// finding register-stranded-when-loop-exited; no further Dial is issued after such an answer)
+			a := rnd.PickS([]string{"none", "none", "none", "close", "shutdown"})
+			r.do("call", "0", "dial", "0", a, "0", "none")
+			if a == "shutdown" {
+				w.Tag("client-onopen-shutdown")
+				break
+			}
 		}
 		r.trafficSome(rnd.Intn(3))
+		if rnd.Chance(30) {
+			// a handler of the client answers Shutdown before anybody calls Stop: its loop leaves, the client is NOT
+			// stopped yet -- Client.Stop still has everything to do (OnShutdown, the other loops, the pollers)
+			if lc := r.liveConns(); len(lc) > 0 {
+				c := lc[rnd.Intn(len(lc))]
+				r.do("traffic", tr.I(c[0]), tr.I(c[1]), "shutdown", "0", "none")
+				w.Tag("client-handler-shutdown-before-stop")
+				r.do("probe")
+			}
+		}
 		if cfg.ticker && rnd.Chance(50) {
 			r.do("tick", "none")
 		}
@@ -467,6 +485,12 @@ func genClientShutdown(rnd *tr.Rand, w *tr.Writer, id string) {
 
 // ---- control focus
 
+// openAct: what OnOpen of a registered / dialled connection answers.  Whatever it is -- the connection is kept, closed
+// at once, or the engine is asked to shut down -- the registration delivers its one result
+func (r *runner) openAct() string {
+	return r.rnd.PickS([]string{"none", "none", "none", "close", "close", "shutdown"})
+}
+
 func (r *runner) randCalls(n int, withRegister bool) {
 	cfg := r.x.cfg
 	for i := 0; i < n; i++ {
@@ -485,15 +509,15 @@ func (r *runner) randCalls(n int, withRegister bool) {
 		case k == 4:
 			r.do("call", g, "register", "none", "0", "1", "none", "0", "none")
 		case k == 5 && withRegister:
-			r.do("call", g, "register", "addr", "0", "1", r.rnd.PickS([]string{"none", "none", "close"}), "0", "none")
+			r.do("call", g, "register", "addr", "0", "1", r.openAct(), "0", "none")
 		case k == 6 && withRegister:
 			r.do("call", g, "register", "addr", "0", "0", "none", "0", "none")
 		case k == 7 && withRegister:
-			r.do("call", g, "register", "conn", "0", r.rnd.PickS([]string{"1", "1", "0"}), "none", "0", "none")
+			r.do("call", g, "register", "conn", "0", r.rnd.PickS([]string{"1", "1", "0"}), r.openAct(), "0", "none")
 		case k == 8 && len(lc) > 0:
-			r.do("call", g, "elregister", tr.I(lc[0][1]), tr.B(r.rnd.Chance(50)), "1", "none", "0", "none")
+			r.do("call", g, "elregister", tr.I(lc[0][1]), tr.B(r.rnd.Chance(50)), "1", r.openAct(), "0", "none")
 		case k == 9 && len(lc) > 0:
-			r.do("call", g, "elenroll", tr.I(lc[0][1]), tr.B(r.rnd.Chance(40)), r.rnd.PickS([]string{"1", "1", "0"}), "none", "0", "none")
+			r.do("call", g, "elenroll", tr.I(lc[0][1]), tr.B(r.rnd.Chance(40)), r.rnd.PickS([]string{"1", "1", "0"}), r.openAct(), "0", "none")
 		case k == 10 && len(lc) > 0:
 			r.x.execN++
 			r.do("call", g, "execute", tr.I(lc[0][1]), tr.B(r.rnd.Chance(40)), tr.I(r.x.execN))
